@@ -238,6 +238,10 @@ uint32_t Ruleset__runOnce(Ruleset *self, OomdContext context)
   __CPROVER_loop_invariant(__CPROVER_loop_entry(g_in_map) ? (g_in_map || !g_k_visited) : !g_in_map) \
   __CPROVER_decreases(g_map_n - cgroup_it.pos)
 
+/* the clock (not read by these functions at the pinned commit; any valid reading, so that a change that makes
+   prerun/runOnce depend on the time is decided rather than left without a model) */
+tp_t nondet_tp(void);
+tp_t ext__now(void) { tp_t t = nondet_tp(); __CPROVER_assume(TP_VALID(t) && !TP_IS_EPOCH(t)); return t; }
 /* ---- prerun: every live instance is prerun on every tick ---- */
 uint64_t g_prerun_dg, g_prerun_act;
 void DetectorGroup__prerun(DetectorGroup dg, OomdContext c) { g_prerun_dg = g_prerun_dg + 1; }
